@@ -151,6 +151,12 @@ def run_case(spec):
         idx = np.where(y == y[0])[0]
         dup = (int(idx[0]), int(idx[-1]))
         X[dup[1]] = X[dup[0]]
+    if lay in ('two_markers', 'tiny_class'):
+        # these layouts take labels away: they are used only where the labeled part stays a well-formed training set
+        # (two_markers: every class keeps >= 3 labeled members; tiny_class: >= 3 classes, the others keep >= 3)
+        cnt = sorted(int((y == c_).sum()) for c_ in np.unique(y[y >= 0]))
+        if (lay == 'two_markers' and cnt[0] < 3) or (lay == 'tiny_class' and (len(cnt) < 3 or cnt[1] < 3)):
+            return dict(evals=0, sigs=[], viol=[], stats={'skipped_layout_leaves_too_few_labeled_points': 1})
     over = dict(param_sets(name, ds, 'quick')[pi])
     is_lda = isinstance(over.get('basis'), str) and over['basis'] == 'lda'
     viol, sigs = [], set()
